@@ -28,7 +28,15 @@ type FSOptions struct {
 // Both returns the committee-majority and the Alphabet signer (they coincide
 // for n<=2); deployments need both: the hash is derived from the first one,
 // subscribeForNewEpoch wants the Alphabet, NNS wants the committee.
-func (c *Chain) Both() []neotest.Signer { return []neotest.Signer{c.Committee, c.Alphabet} }
+// On chains with fewer consensus nodes than committee members the fixture carries their witness too, so that
+// a tree which confuses the two still gets a world in which the property can be judged.
+func (c *Chain) Both() []neotest.Signer {
+	s := []neotest.Signer{c.Committee, c.Alphabet}
+	if vh := c.Validators.ScriptHash(); vh != c.Committee.ScriptHash() && vh != c.Alphabet.ScriptHash() {
+		s = append(s, c.Validators)
+	}
+	return s
+}
 
 // DeployWith deploys with an explicit signer list (first = sender).
 func (c *Chain) DeployWith(signers []neotest.Signer, cc *Compiled, data any) (*Outcome, util.Uint160) {
